@@ -4,6 +4,7 @@ import ast
 
 from .. import tables
 from ..pat import find_expr, find_stmt, match_expr, match_stmt
+from ..canon import single_assignments
 from ..pm import src
 from ..q import FA, call_name, guard_facts, walk_no_nested
 from .C20_reg import _chain_ends_in_raise, compared_literals
@@ -164,7 +165,28 @@ def run(ctx):
     # ---- C19.5 structured arrays keep their field names in JSON -----------------------------
     conv = {b["k"].value for n, b in find_stmt("$$d[$k] = live_points_to_dict($$d[$k])", sr.node, gd[0][1] if gd else None) if isinstance(b["k"], ast.Constant)}
     conv_nodes = [n for n, b in find_stmt("$$d[$k] = live_points_to_dict($$d[$k])", sr.node, gd[0][1] if gd else None)]
-    conv_guarded = all(("extension == 'json'", True) in [(src(e), t) for e, t in guard_facts(sa, sa.cfg.id_of(n))] and sa.cfg.can_follow(sa.cfg.id_of(n), js[0][0]) for n in conv_nodes)
+    # every path to the JSON writer passes the conversion (in the JSON arm, or hoisted above the dispatch) ...
+    conv_ids = [sa.cfg.id_of(n) for n in conv_nodes]
+    conv_guarded = bool(conv_ids) and any(sa.dominates(c_, js[0][0]) for c_ in conv_ids)
+    # ... and a conversion that can reach the HDF5 writer is taken only for names HDF5 can hold: that writer builds dataset
+    # paths as `path + key`, so a dictionary keyed by the model's parameter names splits every name containing "/" into
+    # nested groups (the structured array it replaces has no such restriction)
+    h5 = sa.find_calls("save_dict_to_hdf5")
+    ctx.require(len(h5) == 1, "save_results: the HDF5 writer call was not found")
+    inl_sr = single_assignments(sr.node)
+
+    def _mentions_separator(e_, depth=0):
+        for x_ in ast.walk(e_):
+            if isinstance(x_, ast.Constant) and x_.value == "/":
+                return True
+            if isinstance(x_, ast.Name) and x_.id in inl_sr and depth < 3 and _mentions_separator(inl_sr[x_.id], depth + 1):
+                return True
+        return False
+
+    for c_ in conv_ids:
+        if sa.cfg.can_follow(c_, h5[0][0]):
+            facts_ = guard_facts(sa, c_)
+            ctx.ob("R-TYPE", "C19.5", sr, "a field-name-keyed dictionary reaches the HDF5 writer only under a test that the names contain no path separator", any(t_ and _mentions_separator(e_) for e_, t_ in facts_), f"`{sa.text(c_)[:80]}` can be followed by save_dict_to_hdf5; guards {[src(e_)[:40] for e_, _t in facts_]}")
     for owner, keys in STRUCTURED_RESULT_KEYS.items():
         fn_ = sr if owner == FS else ctx.fn(owner + ".get_result_dictionary")
         for k, producer in keys.items():
